@@ -336,18 +336,33 @@ static void class_pointer_casts(mon::Rng& rng)
   std::vector<uint64_t> offs = { 0, 4, 8, 64, size - 16, size - 12, size - 8, size - 4 };
   for (int i = 0; i < mon::tier(16, 400); i++) offs.push_back(4 * rng.below(size / 4));
   for (uint64_t off : offs) {
-    for (int dir = 0; dir < 2; dir++) {
+    for (int dir = 0; dir < 4; dir++) {
+      const bool as_cell = dir >= 2; // dir 2, 3: the same two casts with the operand read from a pointer cell
+      const int dir4 = dir;
+      dir &= 1;
+      struct Restore { int& d; int v; ~Restore() { d = v; } } restore{ dir, dir4 };
       uintptr_t from = base + off, got = 0;
       int64_t want_off = dir == 0 ? int64_t(off) + adj : int64_t(off) - adj;
       bool inside = want_off >= 0 && uint64_t(want_off) < size;
       mon::ctx("static-cast/class-pointers | %s at offset %llu", dir == 0 ? "D* -> B2* (up)" : "B2* -> D* (down)", (unsigned long long)off);
+      // the operand alternately as a tainted value and as a pointer CELL in sandbox memory (tainted_volatile)
       bool ab = mon::aborts([&] {
-        if (dir == 0) { auto p = sandbox_reinterpret_cast<D*>(Wd::tptr<char>(*SB, off)); got = reinterpret_cast<uintptr_t>(sandbox_static_cast<B2*>(p).UNSAFE_unverified()); }
+        if (as_cell) {
+          Wd::wr<typename Cfg::P>(*SB, 256, static_cast<typename Cfg::P>(off));
+          if (dir == 0) got = reinterpret_cast<uintptr_t>(sandbox_static_cast<B2*>(*Wd::tptr<D*>(*SB, 256)).UNSAFE_unverified());
+          else got = reinterpret_cast<uintptr_t>(sandbox_static_cast<D*>(*Wd::tptr<B2*>(*SB, 256)).UNSAFE_unverified());
+        }
+        else if (dir == 0) { auto p = sandbox_reinterpret_cast<D*>(Wd::tptr<char>(*SB, off)); got = reinterpret_cast<uintptr_t>(sandbox_static_cast<B2*>(p).UNSAFE_unverified()); }
         else { auto p = sandbox_reinterpret_cast<B2*>(Wd::tptr<char>(*SB, off)); got = reinterpret_cast<uintptr_t>(sandbox_static_cast<D*>(p).UNSAFE_unverified()); }
       });
       mon::evals();
-      mon::distinct(mon::mix(0xc1a55, mon::mix(off, dir)));
+      mon::distinct(mon::mix(0xc1a55, mon::mix(off, dir4)));
       (void)from;
+      if (as_cell && off == 0) { // the representation 0 in a pointer cell is the null pointer: the cast of null is null
+        if (ab || got != 0) report("static-cast-class-pointer", "null-cell-not-null-after-cast", mon::fmt("dir %d", dir));
+        else n_hier_ok++;
+        continue;
+      }
       if (inside) {
         if (ab) report("static-cast-class-pointer", "spurious-abort", mon::fmt("offset %llu dir %d", (unsigned long long)off, dir));
         else if (got != base + uint64_t(want_off)) report("static-cast-class-pointer", "wrong-address", mon::fmt("offset %llu dir %d: base%+lld, C++ yields base%+lld", (unsigned long long)off, dir, (long long)(got - base), (long long)want_off));
